@@ -77,7 +77,7 @@ fn script(cfg: &Cfg) -> Vec<Vec<Op>> {
     } else {
         vec![Op::P]
     };
-    vec![vec![Op::P], second]
+    vec![vec![Op::P, Op::P], second]
 }
 
 fn mixes() -> Vec<Mix> {
@@ -99,6 +99,10 @@ fn mixes() -> Vec<Mix> {
         // equal input block, different output block (a cache keyed too coarsely would collide)
         Mix { name: "XX 3->2 + XX 3->1 same input block", cfgs: vec![Cfg::fft(Kind::XX, 3, 2, 24, 1).with_channels(2), Cfg::fft(Kind::XX, 3, 1, 24, 1).with_channels(2)] },
         Mix { name: "XI 2->3 + XX 2->1 same input block", cfgs: vec![xi, Cfg::fft(Kind::XX, 2, 1, 16, 1).with_channels(2)] },
+        // instances that carry saved frames from call to call (chunk not a multiple of the block)
+        Mix { name: "XI+XI with saved input frames", cfgs: vec![Cfg::fft(Kind::XI, 3, 2, 16, 1).with_channels(2), Cfg::fft(Kind::XI, 3, 2, 16, 1).with_channels(2)] },
+        Mix { name: "XO+XO with saved output frames", cfgs: vec![Cfg::fft(Kind::XO, 2, 3, 10, 1).with_channels(2), Cfg::fft(Kind::XO, 2, 3, 10, 1).with_channels(2)] },
+        Mix { name: "FO+FO identical", cfgs: vec![fo.clone(), fo.clone()] },
         // identical sinc table sizes, different cutoff / window
         Mix { name: "SI+SI same table size different filter", cfgs: vec![si.clone(), { let mut c = si.clone(); c.ratio = 0.8; c.window = rubato::WindowFunction::Hann; c }] },
     ]
@@ -261,7 +265,7 @@ fn run_schedules(mix: &Mix, item: &Item, journal: Option<&JournalFile>) -> Resul
             schedules += 1;
             outcome_set.insert(format!("{}:{}:{}", mix.name, if ok { "same" } else { "DIFFERENT" }, order.iter().map(|x| x.to_string()).collect::<String>()));
             if sample.is_none() {
-                sample = Some(json!({"mix": mix.name, "interleaving": order, "worker_of_step": (0..steps).map(worker_of).collect::<Vec<_>>(), "scripts": mix.cfgs.iter().map(|c| format!("construct {}; P; {}", c.short(), if c.kind.is_async() { "R(1.5,T) P" } else { "P" })).collect::<Vec<_>>()}));
+                sample = Some(json!({"mix": mix.name, "interleaving": order, "worker_of_step": (0..steps).map(worker_of).collect::<Vec<_>>(), "scripts": mix.cfgs.iter().map(|c| format!("construct {}; P P; {}", c.short(), if c.kind.is_async() { "R(1.5,T) P" } else { "P" })).collect::<Vec<_>>()}));
             }
         }
         for tx in &txs {
@@ -365,7 +369,7 @@ impl Check for C18 {
         Ok((bad, log))
     }
     fn rule(&self, _tier: Tier) -> String {
-        "instance mixes chosen to collide on everything shared (equal FFT sizes -> same planner cache keys, identical sinc tables, CPU-feature cache); every interleaving of the k three-step scripts (construct; call; [ratio change +] call) x every assignment of steps to 2 worker threads (k=3 in the quick tier: round-robin migration only); each schedule is one case; distinct = distinct (mix, interleaving) with its verdict".into()
+        "instance mixes chosen to collide on everything shared (equal FFT sizes -> same planner cache keys, identical sinc tables, CPU-feature cache); every interleaving of the k three-step scripts (construct; two calls; [ratio change +] call) x every assignment of steps to 2 worker threads (k=3 in the quick tier: round-robin migration only); each schedule is one case; distinct = distinct (mix, interleaving) with its verdict".into()
     }
     fn assumptions(&self) -> Vec<String> {
         vec![
